@@ -315,9 +315,47 @@ func runC09(tier string) int {
 			r.Report(harness.Violation{Sig: "C09:long-text", Summary: fmt.Sprintf("text of %d parts (type %q, inline=%v): error %v, %d directives", k, typ, inline, res.Err, len(got)), Replay: map[string]interface{}{"source": src, "want_lines": want, "directive": dirName, "output": res.Out}})
 		}
 	})
-	if !done || !longDone {
+	// dictionary sweep: every identifier-like literal of the compiler's own source as the whole content of a text and as a
+	// word of it, every string type, as a text statement, inline and formatted
+	words := dictIdents()
+	sweepDone := r.Parallel(uint64(len(words))*uint64(len(c09Types))*6, func(w int, idx uint64) {
+		form := int(idx % 6)
+		x := idx / 6
+		typ := c09Types[x%uint64(len(c09Types))]
+		word := words[x/uint64(len(c09Types))]
+		content := word
+		if form >= 3 {
+			content = "a " + word + " b"
+		}
+		lit := typ + quote(content)
+		var src, label string
+		formatted := false
+		switch form % 3 {
+		case 0:
+			src, label = "text T {\n\t"+lit+"\n}\n", "T"
+		case 1:
+			src, label = "script S {\n\tmsgbox("+lit+")\n}\n", "S_Text_0"
+		default:
+			src, label, formatted = "script S {\n\tmsgbox(format("+lit+", \"f1\", 100))\n}\n", "S_Text_0", true
+		}
+		_ = formatted
+		res := comp.Compile(src, comp.Opts{FontPath: fpath})
+		r.Add("evaluations", 1)
+		r.Add("dictionary_sweep", 1)
+		dirName := "string"
+		if typ != "" {
+			dirName = typ
+		}
+		want := content + terminatorOf(typ)
+		got, ok := directiveLines(res.Out, label)
+		if res.Err != nil || res.Panic != "" || !ok || len(got) != 1 || got[0][0] != dirName || got[0][1] != want {
+			r.Report(harness.Violation{Sig: fmt.Sprintf("C09:dictionary:form%d", form%3), Summary: fmt.Sprintf("text %s: error %v; directives %v, want .%s %q", lit, res.Err, got, dirName, want), Replay: map[string]interface{}{"source": src, "want_lines": []string{want}, "directive": dirName, "output": res.Out}})
+		}
+	})
+	if !done || !longDone || !sweepDone {
 		r.NotExhaustive("enumeration not completed within the budget")
 	}
+	r.Set("dictionary_words", len(words))
 	r.Set("long_text_max_parts", maxK+3)
 	r.Set("max_content_length", maxLen)
 	r.Set("origins", c09Origins)
@@ -325,5 +363,5 @@ func runC09(tier string) int {
 		"contents whose terminator would straddle two parts are not generated (the property can be read both ways there)",
 		"for format() origins the source lines are the lines of the exported FormatText's result (its content is C07's business)")
 	return r.Finish(r.Get("evaluations"), r.Get("nontrivial"),
-		"every content of total length <= L over {a, é, space, $, \\, 0, n, p, {, }, newline-inside-literal} split into 1-3 literal parts x 3 layouts (same line / one part per line / several comment lines between the parts) x 4 string types x 17 origins (after a plain text spelled like the type plus the content, argument of an AutoVar command standing first / in the middle / last in &&- and ||-chains of if, while and do...while conditions and as a switch operand, text statement, inline argument, format() of each, poryswitch case selected directly / through '_' / brace form, argument inside an if, after / before a typed inline text in the same command, after typed texts elsewhere); plus texts of K parts for every K up to the bound in the coverage (statement and inline, every string type); non-trivial = >= 2 parts and a string type")
+		"every content of total length <= L over {a, é, space, $, \\, 0, n, p, {, }, newline-inside-literal} split into 1-3 literal parts x 3 layouts (same line / one part per line / several comment lines between the parts) x 4 string types x 17 origins (after a plain text spelled like the type plus the content, argument of an AutoVar command standing first / in the middle / last in &&- and ||-chains of if, while and do...while conditions and as a switch operand, text statement, inline argument, format() of each, poryswitch case selected directly / through '_' / brace form, argument inside an if, after / before a typed inline text in the same command, after typed texts elsewhere); plus every identifier-like literal of the compiler's own source as a whole text and as a word of a text (statement, inline, formatted; every type); plus texts of K parts for every K up to the bound in the coverage (statement and inline, every string type); non-trivial = >= 2 parts and a string type")
 }
